@@ -13,7 +13,7 @@ size_t G_mc;   /* ghost index: never assigned by code under proof */
 #endif
 #endif
 void *memcpy(void *dst, const void *src, size_t n)
-REQUIRES(n == 0 || (W_OK(dst, n) && R_OK(src, n)))
+REQUIRES(n == 0 || (WR_OK(dst, n) && RD_OK(src, n)))
 /* no overlap (C11 7.24.2.1) */
 REQUIRES(n == 0 || !__CPROVER_same_object(dst, src) ||
 	__CPROVER_POINTER_OFFSET(dst) + n <= __CPROVER_POINTER_OFFSET(src) || __CPROVER_POINTER_OFFSET(src) + n <= __CPROVER_POINTER_OFFSET(dst))
@@ -28,13 +28,13 @@ ENSURES(G_mc < n IMPLIES ((const uint8_t *)dst)[G_mc] == ((const uint8_t *)src)[
 int G_mcmp_last; size_t G_mcmp_n; const void *G_mcmp_a; const void *G_mcmp_b; unsigned G_mcmp_calls;
 #endif
 int memcmp(const void *a, const void *b, size_t n)
-REQUIRES(n == 0 || (R_OK(a, n) && R_OK(b, n)))
+REQUIRES(n == 0 || (RD_OK(a, n) && RD_OK(b, n)))
 ASSIGNS(G_mcmp_last, G_mcmp_n, G_mcmp_a, G_mcmp_b, G_mcmp_calls)
 ENSURES(G_mcmp_last == RET && G_mcmp_n == n && G_mcmp_a == a && G_mcmp_b == b && G_mcmp_calls == OLD(G_mcmp_calls) + 1)
 ;
 #else
 int memcmp(const void *a, const void *b, size_t n)
-REQUIRES(n == 0 || (R_OK(a, n) && R_OK(b, n)))
+REQUIRES(n == 0 || (RD_OK(a, n) && RD_OK(b, n)))
 ASSIGNS()
 /* equal ranges agree at every index, in particular at the ghost index */
 ENSURES((RET == 0 && G_mc < n) IMPLIES ((const uint8_t *)a)[G_mc] == ((const uint8_t *)b)[G_mc])
@@ -42,12 +42,12 @@ ENSURES((RET == 0 && G_mc < n) IMPLIES ((const uint8_t *)a)[G_mc] == ((const uin
 #endif
 /* src/hex.c helpers */
 void gmssl_secure_clear(void *ptr, size_t len)
-REQUIRES(len == 0 || W_OK(ptr, len))
+REQUIRES(len == 0 || WR_OK(ptr, len))
 ASSIGNS(len != 0: OBJ_UPTO((uint8_t *)ptr, len))
 ENSURES(G_mc < len IMPLIES ((const uint8_t *)ptr)[G_mc] == 0)
 ;
 void gmssl_memxor(void *r, const void *a, const void *b, size_t len)
-REQUIRES(len == 0 || (W_OK(r, len) && R_OK(a, len) && R_OK(b, len)))
+REQUIRES(len == 0 || (WR_OK(r, len) && RD_OK(a, len) && RD_OK(b, len)))
 ASSIGNS(len != 0: OBJ_UPTO((uint8_t *)r, len))
 ;
 #endif
